@@ -8,7 +8,17 @@ from sqimpl import hx
 
 
 def big(ctx):
-    return ctx['tier'] == 'thorough' or ctx.get('escalate')
+    return ctx['tier'] == 'thorough'
+
+
+def sz(ctx, quick, thorough):
+    """case budget: quick tier; 4x quick (capped) when a proof obligation / tie / slice broke and the failing-input
+    search is on; the thorough budget in the thorough tier"""
+    if ctx['tier'] == 'thorough':
+        return thorough
+    if ctx.get('escalate'):
+        return min(thorough, 4 * quick)
+    return quick
 
 
 def _run(name, mon, payloads, rule, samples=None):
@@ -61,7 +71,7 @@ def rerun_witness(ctx, entry):
 
 # ------------------------------------------------------------------ C01
 def monitor_c01(ctx):
-    n = 6000 if big(ctx) else 600
+    n = sz(ctx, 600, 6000)
     pays = []
     for l in _eval_lines_from(ctx):
         m = re.search(r'\(budget (\d+)\)', l)
@@ -86,9 +96,9 @@ def monitor_c01(ctx):
 # ------------------------------------------------------------------ C02
 def monitor_c02(ctx):
     names = list(sqimpl.load().functions.FUNCTIONS.keys())
-    cases = gens2.builtin_cases(ctx['seed'], names, 3000 if big(ctx) else 300)
+    cases = gens2.builtin_cases(ctx['seed'], names, sz(ctx, 300, 3000))
     pays = [{'line': l} for l in _eval_lines_from(ctx)] + [{'line': c[0]} for c in cases]
-    for i in range(3000 if big(ctx) else 300):
+    for i in range(sz(ctx, 300, 3000)):
         rng = random.Random(f'{ctx["seed"]}/mon-c02/{i}')
         pays.append({'line': proggen.eval_case(rng)[0]})
     pays.append({'line': gens2.eval_line('dict[0]')})
@@ -99,7 +109,7 @@ def monitor_c02(ctx):
 
 # ------------------------------------------------------------------ C03
 def monitor_c03(ctx):
-    n = 1500 if big(ctx) else 150
+    n = sz(ctx, 150, 1500)
     pays = [{'line': l} for l in _eval_lines_from(ctx)]
     for c in gens2.ops_cases(ctx['seed'], n, 1, big_every=6):
         pays.append({'line': c[0]})
@@ -124,7 +134,7 @@ def monitor_c03(ctx):
 # ------------------------------------------------------------------ C04
 def monitor_c04(ctx):
     pays = [{'line': l} for l in _eval_lines_from(ctx)]
-    for c in gens2.num_cases(ctx['seed'], 20000 if big(ctx) else 2000):
+    for c in gens2.num_cases(ctx['seed'], sz(ctx, 2000, 20000)):
         pays.append({'line': c[0].replace(' (modelparser)', '')})
     e = lambda src, ent='': gens2.eval_line(src, ent, hostfns=False)
     big30 = f'(S:{hx("a")} I:{10 ** 30}) (S:{hx("b")} I:{10 ** 30})'
@@ -149,7 +159,7 @@ def monitor_c05(ctx):
     for pat, subj in ADVERSARIAL:
         for fn in ('match', 'match_groups', 'match_all'):
             pays.append({'fn': fn, 'pattern': pat, 'subject_expr': subj, 'flags': []})
-    n = 400 if big(ctx) else 40
+    n = sz(ctx, 40, 400)
     for i in range(n):
         r = random.Random(f'{ctx["seed"]}/mon-c05/{i}')
         atoms = ['a', 'b', '.', '\\w', '[ab]', '(a|b)', '(a|ab)', 'a?', '\\d']
@@ -180,7 +190,7 @@ def monitor_c06(ctx):
 
 # ------------------------------------------------------------------ C08
 def monitor_c08(ctx):
-    n = 30000 if big(ctx) else 3000
+    n = sz(ctx, 3000, 30000)
     pays = []
     for i in range(n):
         r = random.Random(f'{ctx["seed"]}/mon-c08/{i}')
@@ -205,7 +215,7 @@ def monitor_c08(ctx):
 # ------------------------------------------------------------------ C09
 def monitor_c09(ctx):
     pays = [{'line': l} for l in _eval_lines_from(ctx)]
-    for c in gens2.probe_cases(ctx['seed'], 20000 if big(ctx) else 3000):
+    for c in gens2.probe_cases(ctx['seed'], sz(ctx, 3000, 20000)):
         pays.append({'line': c[0].replace(' (modelparser)', '')})
     return _run('c09', 'c09', pays, 'probe shapes: every probe called at most as often as it occurs in the source (lambda-free programs); in '
                 'programs without and/or/if the probes run in source order up to the first failure (source-level oracle)')
@@ -214,7 +224,7 @@ def monitor_c09(ctx):
 # ------------------------------------------------------------------ C10
 def monitor_c10(ctx):
     pays = [{'line': l} for l in _eval_lines_from(ctx)]
-    for c in gens2.scope_cases(ctx['seed'], 10000 if big(ctx) else 1500):
+    for c in gens2.scope_cases(ctx['seed'], sz(ctx, 1500, 10000)):
         pays.append({'line': c[0]})
     a = _run('c10', 'c10', pays, 'scope programs: identity and contents of FUNCTIONS before/after; no name that is not assigned at top level '
              'may appear in the host mapping')
@@ -237,7 +247,7 @@ def _hist_payloads(ctx, tag, n, caches):
 
 
 def monitor_c11(ctx):
-    pays = _hist_payloads(ctx, 'mon-c11', 4000 if big(ctx) else 250, ['none'])
+    pays = _hist_payloads(ctx, 'mon-c11', sz(ctx, 250, 4000), ['none'])
     a = _run('c11', 'c11', pays, 'histories of parse / eval / list_names (partially consumed) / host mutation on one SqParser: every call '
              'repeated on a freshly constructed SqParser with deep-copied equal arguments; result / exception class and message compared')
     b = _run('c11_repeat', 'c11_repeat', [{'define': 'f = n => n + 1 + 1 + 1 + 1 + 1 + 1 + 1 + 1 + 1 + 1', 'call': 'f(1)', 'N': 30, 'times': 9}],
@@ -246,7 +256,7 @@ def monitor_c11(ctx):
 
 
 def monitor_c17(ctx):
-    pays = _hist_payloads(ctx, 'mon-c17', 4000 if big(ctx) else 250, ['dict', 'lru2', 'evict'])
+    pays = _hist_payloads(ctx, 'mon-c17', sz(ctx, 250, 4000), ['dict', 'lru2', 'evict'])
     return _run('c17', 'c17', pays, 'a cached (dict / LRU(2) / always-evicting) and an uncached SqParser driven in lock-step over the same history; '
                 'attribute-level snapshot of every cached tree around each call')
 
@@ -254,7 +264,7 @@ def monitor_c17(ctx):
 # ------------------------------------------------------------------ C12
 def monitor_c12(ctx):
     pays = [{'line': l} for l in _eval_lines_from(ctx)]
-    for c in gens2.alias_cases(ctx['seed'], 10000 if big(ctx) else 1500):
+    for c in gens2.alias_cases(ctx['seed'], sz(ctx, 1500, 10000)):
         pays.append({'line': c[0]})
     return _run('c12', 'c12', pays, 'all assignment forms from host objects, then non-linking mutations through either side: the mutable objects '
                 'reachable from the stored value and from the source (id-sets) must be disjoint')
@@ -283,7 +293,7 @@ def monitor_c13(ctx):
 
 # ------------------------------------------------------------------ C14
 def monitor_c14(ctx):
-    n = 20000 if big(ctx) else 2000
+    n = sz(ctx, 2000, 20000)
     pays = []
     D = lambda s: {'d': s}
     for i in range(n):
@@ -312,7 +322,7 @@ def monitor_c14(ctx):
 
 # ------------------------------------------------------------------ C15
 def monitor_c15(ctx):
-    n = 30000 if big(ctx) else 3000
+    n = sz(ctx, 3000, 30000)
     pays = []
     for i in range(n):
         r = random.Random(f'{ctx["seed"]}/mon-c15/{i}')
@@ -327,7 +337,7 @@ def monitor_c15(ctx):
 
 # ------------------------------------------------------------------ C16
 def monitor_c16(ctx):
-    n = 30000 if big(ctx) else 4000
+    n = sz(ctx, 4000, 30000)
     pays = []
     exotic = ['\x00', '\x07', '\r', '\x0c', '\x7f', '\x85', '', '\ud800', '\U0010ffff', '​', 'é', '€', '　', '\x1b', '²']
     for i in range(n):
@@ -370,7 +380,7 @@ def monitor_c16(ctx):
 
 # ------------------------------------------------------------------ C18
 def monitor_c18(ctx):
-    n = 20000 if big(ctx) else 2500
+    n = sz(ctx, 2500, 20000)
     pays = []
     for i in range(n):
         r = random.Random(f'{ctx["seed"]}/mon-c18/{i}')
@@ -391,13 +401,13 @@ def monitor_c18(ctx):
 
 # ------------------------------------------------------------------ C19
 def monitor_c19(ctx):
-    n = 400 if big(ctx) else 40
+    n = sz(ctx, 40, 400)
     pays = []
     for i in range(n):
         r = random.Random(f'{ctx["seed"]}/mon-c19/{i}')
         a = r.choice([0, 1, -5, 10, 10 ** 30, 10 ** 30 + 1, -3, 7, -10 ** 29])
         b = a + r.choice([0, 0, 1, 2, 5, 100, 10 ** 20])
-        pays.append({'seed': r.randrange(10 ** 9), 'a': a, 'b': b, 'draws': 200 if big(ctx) else 40,
+        pays.append({'seed': r.randrange(10 ** 9), 'a': a, 'b': b, 'draws': sz(ctx, 40, 200),
                      'lists': [[1], [], [1, 2], [3, 1, 2, 9], ['a', 'b', 'c', 'd', 'e'], [[1], [2]]][:r.randint(2, 6)]})
     for p in pays:
         p['lists'] = [l for l in p['lists'] if l] + [[7]]
@@ -407,7 +417,7 @@ def monitor_c19(ctx):
 
 # ------------------------------------------------------------------ C20
 def monitor_c20(ctx):
-    n = 40000 if big(ctx) else 5000
+    n = sz(ctx, 5000, 40000)
     pays = []
     for i in range(n):
         r = random.Random(f'{ctx["seed"]}/mon-c20/{i}')
